@@ -192,6 +192,7 @@ def witness_spec(reason):
         'IndexTypeCase': lambda: s['tables'][0]['indexes'].append({'subjects': [{'col': 0}], 'name': None, 'unique': False, 'type': 'BTREE', 'pk': False, 'note': '', 'comment': None}),
         'ActionCase': lambda: s['refs'].append(dict(ref, on_delete='CASCADE')),
         'ExprBacktick': lambda: s['tables'][0]['columns'][0].update(default={'k': 'expr', 'v': 'a`b'}),
+        'MultilineExpr': lambda: s['tables'][0]['columns'][0].update(default={'k': 'expr', 'v': 'multi\nline'}),
         'NotPrintable': lambda: s['tables'][0].update(note='a\tb'),
         'NotNormal': lambda: s['tables'][0].update(note='  indented'),
     }
